@@ -303,6 +303,14 @@ impl LayoutSpace {
         blocks.push(Block { k: 2, fields: sub.clone(), addrs: vec![None, Some(0x100), Some(0xFF8), Some(0x10000)], size_sel: vec![0, 1, 4], aligns: vec![None, Some(8)] });
         LayoutSpace { tier: tier.to_string(), with_aux, blocks, long: long_types(), env: if with_aux { aux_env() } else { Env::default() } }
     }
+    /// The space without the three-field block over the scalar sub-alphabet (quick tier of C13: those cases are
+    /// compiled by C01 / C02 already and contain nothing but scalars and pointers).
+    pub fn without_scalar_triples(mut self) -> LayoutSpace {
+        if self.tier != "thorough" {
+            self.blocks.retain(|b| !(b.k == 3 && b.fields.len() == 4 && b.addrs.len() == 4));
+        }
+        self
+    }
     /// The space without the long-type family (for checks whose cost grows with the number of fields).
     pub fn without_long(mut self) -> LayoutSpace {
         self.long.clear();
